@@ -482,6 +482,39 @@ func main() {
 		b58Decode(string(sb), true)
 	}
 
+	// every length around machine-word boundaries: extreme and random digit strings / byte strings
+	// (a fixed-width fast path would wrap exactly here: 58^10 < 2^64 < 58^11, 58^21 < 2^128 < 58^22)
+	r = rng.Fork("b58-boundaries")
+	for L := 1; L <= 48; L++ {
+		top := bytes.Repeat([]byte{'z'}, L)
+		b58Decode(string(top), L <= 24)
+		low := append([]byte{'2'}, bytes.Repeat([]byte{'1'}, L-1)...)
+		b58Decode(string(low), L%4 == 0)
+		for k := 0; k < cfg.Scale(12, 60); k++ {
+			sb := make([]byte, L)
+			for j := range sb {
+				sb[j] = b58Alphabet[r.Intn(58)]
+			}
+			if k%3 == 0 { // bias to large leading digits
+				sb[0] = b58Alphabet[40+r.Intn(18)]
+			}
+			b58Decode(string(sb), k == 0 && L <= 24)
+		}
+	}
+	for L := 1; L <= 40; L++ {
+		b58Encode(bytes.Repeat([]byte{0xff}, L), L <= 20)
+		one := make([]byte, L)
+		one[0] = 1
+		b58Encode(one, L <= 20)
+		for k := 0; k < cfg.Scale(8, 40); k++ {
+			b := r.Bytes(L)
+			if k%2 == 0 {
+				b[0] = byte(1 + r.Intn(3))
+			}
+			b58Encode(b, k == 0 && L <= 20)
+		}
+	}
+
 	// --- base58check
 	r = rng.Fork("check")
 	nc := cfg.Scale(60, 600)
